@@ -157,6 +157,7 @@ func (r *DynamicHostResolver) periodicalResolve() {
 func (r *DynamicHostResolver) addressResolved(hostname string, addrs []string, err error) {
 	r.Lock()
 	defer r.Unlock()
+	defer vt("res.resolved", r, hostname, err == nil)
 	if entry, ok := r.hostIPs[hostname]; ok {
 		if err != nil {
 			entry.failed += 1
@@ -186,6 +187,7 @@ func (r *DynamicHostResolver) notifyAddressChanged(hostname string, entry *Addre
 	for _, callback := range entry.callbacks {
 		callback(hostname, newAddrs, removedAddrs)
 	}
+	vt("res.notified", r, hostname, len(newAddrs), len(removedAddrs))
 
 }
 func (r *DynamicHostResolver) doResolve(hostname string) ([]string, error) {
